@@ -438,6 +438,61 @@ def fam_large(agg, h, methods, all_expects):
                               method, ex, lcols, rcols, lkeys, rkeys, h, ())
 
 
+    # fan-in / fan-out: ONE row of a side is the partner of 255..300 rows of the other (a per-row counter, a per-key bucket, a
+    # recursion or a small-int assumption has its threshold there), next to a row without any partner
+    for m in (255, 256, 257, 300):
+        for swap in (False, True):
+            many = [7] * m + [8]
+            few = [7, 9]
+            a, b = (few, many) if swap else (many, few)
+            lkeys, rkeys = [(k,) for k in a], [(k,) for k in b]
+            lcols = [("k0", list(a)), ("lp", [100000 + i for i in range(len(a))])]
+            rcols = [("k0", list(b)), ("rp", [200000 + i for i in range(len(b))])]
+            agg.states += 1; agg.nontrivial += 1
+            for method in methods:
+                for ex in (VALID if all_expects else ["many_to_many"]):
+                    L, R = tbl(lcols), tbl(rcols)
+                    case = {"family": "large tables", "rows": [len(a), len(b)], "right_keys": "one row with %d partners" % m, "swapped": swap, "method": method, "expect": ex}
+                    judge(agg, f"{method}.large", case, lambda: getattr(L, method)(R, left_on="k0", right_on="k0", expect=ex),
+                          method, ex, lcols, rcols, lkeys, rkeys, h, ())
+
+
+def fam_keyorder(agg, h, methods, all_expects):
+    """composite keys given BY NAME: the i-th name of left_on pairs with the i-th name of right_on - whatever the order of the
+    columns inside either table and whatever order the names are listed in.  Every column layout of both tables (key columns and
+    payload permuted), every listing order, key columns of one kind so that a wrong pairing joins other rows instead of failing."""
+    from serif import Vector
+    pats = [
+        ([(1, 2), (2, 1), (1, 1)], [(1, 2), (2, 1), (2, 2)]),
+        ([(1, 2), (1, 2), (2, 1)], [(2, 1), (1, 2), (1, 1)]),
+        ([(1, 2, 3), (2, 1, 3), (3, 2, 1)], [(1, 2, 3), (3, 2, 1), (2, 3, 1)]),
+    ]
+    for lk, rk in pats:
+        nk = len(lk[0])
+        lnames, rnames = ["a", "b", "c"][:nk], ["x", "y", "z"][:nk]
+        for lperm in itertools.permutations(range(nk + 1)):
+            for rperm in itertools.permutations(range(nk + 1)):
+                if nk == 3 and (lperm[0] > 1 or rperm[1] > 1):
+                    continue                    # 3 keys: a third of the layouts of each side (still every relative order of two keys)
+                lall = [(lnames[j], [k[j] for k in lk]) for j in range(nk)] + [("lp", [100 + i for i in range(len(lk))])]
+                rall = [(rnames[j], [k[j] for k in rk]) for j in range(nk)] + [("rp", [200 + i for i in range(len(rk))])]
+                lcols = [lall[i] for i in lperm]
+                rcols = [rall[i] for i in rperm]
+                for order in itertools.permutations(range(nk)):
+                    lon, ron = [lnames[j] for j in order], [rnames[j] for j in order]
+                    lkeys = [tuple(k[j] for j in order) for k in lk]
+                    rkeys = [tuple(k[j] for j in order) for k in rk]
+                    agg.states += 1; agg.nontrivial += 1
+                    for method in methods:
+                        for form in ("list",):         # a tuple of names is refused by design ("strings, Vectors, or lists")
+                            L, R = tbl(lcols), tbl(rcols)
+                            case = {"family": "key names listed in another order than the columns", "left_columns": [c[0] for c in lcols], "right_columns": [c[0] for c in rcols],
+                                    "left_on": lon, "right_on": ron, "method": method, "form": form}
+                            judge(agg, f"{method}.keyorder", case,
+                                  lambda: getattr(L, method)(R, left_on=(list(lon) if form == "list" else tuple(lon)), right_on=(list(ron) if form == "list" else tuple(ron)), expect="many_to_many"),
+                                  method, "many_to_many", lcols, rcols, lkeys, rkeys, h, (L, R))
+
+
 class _NotJudged(Exception):
     pass
 
@@ -447,7 +502,7 @@ class _S(str):
 
 
 FAMILIES = {"skew": fam_skew, "args": fam_args, "dupnames": fam_dupnames, "twice": fam_twice, "self": fam_self, "expectstr": fam_expectstr,
-            "namesake": fam_namesake, "dupkeys": fam_dupkeys, "typednone": fam_typednone, "large": fam_large}
+            "namesake": fam_namesake, "dupkeys": fam_dupkeys, "typednone": fam_typednone, "large": fam_large, "keyorder": fam_keyorder}
 
 
 def run_extra_unit(unit, methods, all_expects=False):
